@@ -412,6 +412,20 @@ func evalC03(r *runner, u *parseUnit, c ParseCase) string {
 			return fmt.Sprintf("grammar:\n%s\ninput %v: with another parser object parsing the same input inside action call %d, Parse returns err==nil: %v, %s with calls\n  %s\nexpected %s with calls\n  %s", u.src, c.Toks, k, o3.ErrNil, o3.Result, logString(o3.Log), wantV, logString(wantLog))
 		}
 		r.col.Class("nested_parser_object")
+		// $Context is the value stored in the parser's Context field at the time
+		// the action runs: replace it during the parse
+		if len(wantLog) >= 2 {
+			ks := (len(c.Toks)*5 + c.FailAt + 7) % (len(wantLog) - 1)
+			o4, inSecond := u.ps.NewSession().ParseSwitchCtx(u.ptoks(c.Toks), ks)
+			r.col.Eval()
+			if m := sane(u, c, o4); m != "" {
+				return m
+			}
+			if !o4.ErrNil || logString(o4.Log) != logString(wantLog) || inSecond != len(wantLog)-ks-1 {
+				return fmt.Sprintf("grammar:\n%s\ninput %v: the parser's Context field was replaced inside action call %d of %d; the calls after it must reach the new object: %d did (expected %d); all calls:\n  %s\nexpected\n  %s", u.src, c.Toks, ks, len(wantLog), inSecond, len(wantLog)-ks-1, logString(o4.Log), logString(wantLog))
+			}
+			r.col.Class("context_replaced_during_parse")
+		}
 	}
 	if nt {
 		r.col.NonTrivial(ev.Hash(u.src, strings.Join(c.Toks, " ")), func() any {
